@@ -365,7 +365,8 @@ def replay(pid, path):
     print("case:     ", line)
     print("impl now: ", impl_obs)
     print("model/spec:", model_obs)
-    if impl_obs != model_obs:
+    strip = lambda x: x.split(" spec=")[0]
+    if strip(impl_obs) != strip(model_obs) or "spec=bad" in impl_obs:
         print("STILL FAILS")
         return 1
     print("agrees now")
